@@ -6,6 +6,7 @@ package main
 //	Gts/Gen/RegionSeg.lean     utils.go Abs, Segment.Len / Head / Tail / Complement        (C08, C09)
 //	Gts/Gen/Region.lean        BySegment.Less, invertSegments, the merge loop of Minimize  (C09, C15)
 //	Gts/Gen/RegionResize.lean  Regions.Len, the bounds and the walk of Regions.Resize       (C08)
+//	Gts/Gen/RegionRec.lean     Region.Len / Head / Tail / Complement over Segment | Regions (C08)
 //
 // What is translated, and how it is read:
 //
@@ -38,7 +39,11 @@ package main
 //     here: aliasing of the backing array (C11's subject) is not represented.
 //   - a `Regions` value is seen as the list of the results of ONE method on its elements (a call
 //     `rr[k].Len()` on the interface `Region` is dynamic dispatch): in `Regions.Resize` and
-//     `Regions.Len` the list of element lengths.
+//     `Regions.Len` the list of element lengths, in `Regions.Head / Tail / Complement` the list of
+//     element-wise heads / tails / complements (`make(Regions, n)` is `List.replicate n default`,
+//     `ret[k] = r.Complement()` is `List.set`); `reg<M>` in RegionRec.lean is the dispatch over the
+//     two implementers of `Region` (checked: exactly Segment and Regions have a `Locate` method in
+//     region.go) as a structurally recursive function over `Gts.Reg`.
 //   - `Minimize`: `ss := flattenRegion(arg)` and `sort.Sort(BySegment(ss))` in front of the merge
 //     loop are checked to be there (`minimizeFrame`) and stay hand-modelled; the rest of the body is
 //     `minimizeMerge`.
@@ -898,6 +903,65 @@ func genRegionResize(repo string) (text string, err error) {
 	}
 
 	g.resize(af)
+	g.out.WriteString("end Gts.Gen\n")
+	return g.out.String(), nil
+}
+
+// genRegionRec: Gts/Gen/RegionRec.lean — `Region.Len / Head / Tail / Complement` over the whole
+// tree `Segment | Regions` (obligations of C08).  For each method M the `Regions` method is
+// translated on the list of the element-wise results of M (a call `r.M()` / `rr[k].M()` on the
+// interface Region is dynamic dispatch: the recursive call of the generated function), and
+// `reg<M>` puts it together with `Segment.M` as a structurally recursive function over `Gts.Reg`.
+func genRegionRec(repo string) (text string, err error) {
+	defer recoverRefusal(&err)
+	g, _, af, perr := regionSource(repo)
+	if perr != nil {
+		return "", perr
+	}
+	g.header("`Region.Len / Head / Tail / Complement` over the tree `Segment | Regions`: the `Regions` methods on the\n  list of element-wise results, and the dispatch as structurally recursive functions over `Gts.Reg`.",
+		"import Gts.Gen.RegionSeg\nimport Gts.Gen.RegionResize\nimport Gts.Model.Region\n")
+	wantTypes(af, [2]string{"Segment", "[2]int"}, [2]string{"Regions", "[]Region"})
+	// the implementers of Region in region.go: exactly Segment and Regions
+	var impl []string
+	for _, d := range af.Decls {
+		if fd, ok := d.(*ast.FuncDecl); ok && fd.Recv != nil && fd.Name.Name == "Locate" && len(fd.Recv.List) == 1 {
+			impl = append(impl, exprString(fd.Recv.List[0].Type))
+		}
+	}
+	sort.Strings(impl)
+	if strings.Join(impl, ",") != "Regions,Segment" {
+		refuse("region.go: the types with a Locate method are %v, expected Segment and Regions", impl)
+	}
+	for _, m := range []struct{ name, elemT, def, res, rt string }{
+		{"Head", "Int", "0", "int", "Int"}, {"Tail", "Int", "0", "int", "Int"}, {"Complement", "Gts.Reg", "default", "lens", "List Gts.Reg"},
+	} {
+		fd := findMethod(af, "Regions", m.name)
+		if fd == nil {
+			refuse("region.go: Regions.%s not found", m.name)
+		}
+		normalise(fd)
+		what := "region.go `Regions." + m.name + "`"
+		wantResults(fd, what, map[string]string{"int": "int", "lens": "Region"}[m.res])
+		singleIntParam(fd, 0)
+		rn := recvName(fd, what)
+		e := g.newEnv()
+		e.viewM, e.viewT, e.viewD = m.name, m.elemT, m.def
+		e.results = []string{m.res}
+		e.declare(rn, val{typ: "lens", expr: rn})
+		g.def("regions"+m.name, what+" on the list of the element-wise results of `"+m.name+"` (`r."+m.name+"()` on the interface Region is the element)",
+			[]string{"(" + rn + " : List " + m.elemT + ")"}, e, fd.Body.List, nil, m.rt)
+	}
+	for _, m := range []struct{ name, elemT, seg, many string }{
+		{"Len", "Int", "segmentLen h t", "regionsLen (regLenList rs)"},
+		{"Head", "Int", "segmentHead h t", "regionsHead (regHeadList rs)"},
+		{"Tail", "Int", "segmentTail h t", "regionsTail (regTailList rs)"},
+		{"Complement", "Gts.Reg", ".seg (segmentComplement h t).1 (segmentComplement h t).2", ".many (regionsComplement (regComplementList rs))"},
+	} {
+		fmt.Fprintf(&g.out, "mutual\n/-- region.go: `Region.%s()` — dynamic dispatch over `Segment` / `Regions` -/\ndef reg%s : Gts.Reg → %s\n  | .seg h t => %s\n  | .many rs => %s\n",
+			m.name, m.name, m.elemT, m.seg, m.many)
+		fmt.Fprintf(&g.out, "/-- element-wise `%s` (what the loops / index expressions of `Regions.%s` see) -/\ndef reg%sList : List Gts.Reg → List %s\n  | [] => []\n  | r :: rs => reg%s r :: reg%sList rs\nend\n\n",
+			m.name, m.name, m.name, m.elemT, m.name, m.name)
+	}
 	g.out.WriteString("end Gts.Gen\n")
 	return g.out.String(), nil
 }
